@@ -59,6 +59,17 @@ def _def_ssum(ap):
                   z3.Implies(hi > lo, ap == ssum(a, d, lo, hi - 1) + a[hi - 1] + d))
 
 
+# asum(arr, off, lo, hi) = sum of (p - off) over lo <= p < hi with arr[p] < arr[p + 1]   (positions of ascents, VT code)
+asum = z3.Function("asum", A, I, I, I, I)
+
+
+def _def_asum(ap):
+    a, off, lo, hi = ap.children()
+    return z3.And(z3.Implies(hi <= lo, ap == 0),
+                  z3.Implies(hi > lo, ap == asum(a, off, lo, hi - 1) + z3.If(a[hi - 1] < a[hi], hi - 1 - off, 0)))
+
+
+RECURSIVE[asum.name()] = (asum, _def_asum)
 RECURSIVE[pv.name()] = (pv, _def_pv)
 RECURSIVE[ipow.name()] = (ipow, _def_ipow)
 RECURSIVE[cnt.name()] = (cnt, _def_cnt)
